@@ -94,9 +94,19 @@ Definition find_declared (st : state) (sc : scope) (name : Z) (skip_for : bool) 
   let start := if skip_for then nfordecls sc else 0 in
   find (fun v => vname (vget st v) =? name) (rev (skipn (Z.to_nat start) (sdeclared sc))).
 
-(* ---- findUndeclared (ast.go:313-321) ----------------------------------------------------- *)
+(* ---- findUndeclared (ast.go:313-323) ----------------------------------------------------- *)
+(* for i, v := range s.Undeclared: the first entry with 0 < Uses, that name, and
+   (NumArgUses <= i || v.Decl != NoDecl): among the first NumArgUses entries (the uses made in the parameter
+   list / loop head / catch parameter) only var declarations passed through are found, behind them every entry *)
+Definition und_args (sc : scope) : list nat := firstn (Z.to_nat (narguses sc)) (sundeclared sc).
+Definition und_live (sc : scope) : list nat := skipn (Z.to_nat (narguses sc)) (sundeclared sc).
+
 Definition find_undeclared (st : state) (sc : scope) (name : Z) : option nat :=
-  find (fun v => (0 <? vuses (vget st v)) && (vname (vget st v) =? name)) (sundeclared sc).
+  match find (fun v => (0 <? vuses (vget st v)) && (vname (vget st v) =? name) && negb (vdecl (vget st v) =? NoDecl))
+             (und_args sc) with
+  | Some v => Some v
+  | None => find (fun v => (0 <? vuses (vget st v)) && (vname (vget st v) =? name)) (und_live sc)
+  end.
 
 (* ---- AddUndeclared (ast.go:324-332) ------------------------------------------------------ *)
 Definition add_undeclared (st : state) (s : nat) (v : nat) : res state :=
@@ -231,6 +241,12 @@ Definition mark_args (st : state) (s : nat) : res state :=
   Ok (sset st s (mkScope (sparent sc) (sfunc sc) (sdeclared sc) (sundeclared sc)
                          (nfordecls sc) (u16 (len (sdeclared sc))) (u16 (len (sundeclared sc))))).
 
+(* parse.go (try statement): p.scope.NumArgUses = uint16(len(p.scope.Undeclared)) after the catch parameter *)
+Definition mark_catch (st : state) (s : nat) : res state :=
+  sc <~ sget st s ;;
+  Ok (sset st s (mkScope (sparent sc) (sfunc sc) (sdeclared sc) (sundeclared sc)
+                         (nfordecls sc) (nfuncargs sc) (u16 (len (sundeclared sc))))).
+
 (* ---- HoistUndeclared (ast.go:347-367) ---------------------------------------------------- *)
 (* merge vorig into v: v.Uses += vorig.Uses; vorig.Link = v  (in this order; v may be vorig) *)
 Definition merge_into (st : state) (vorig v : nat) : state :=
@@ -332,6 +348,25 @@ Fixpoint chase (fuel : nat) (st : state) (v : nat) : nat :=
 
 Definition root_of (st : state) (v : nat) : nat := chase (length (vars st) + length (scopes st)) st v.
 
+(* ---- the name of a class expression (parse.go parseAnyClass, before exitScope) ------------ *)
+(* for i, v := range classDecl.Scope.Undeclared { if 0 < v.Uses && v.Decl == NoDecl && name equal {
+     Name.Uses += v.Uses; v.Link = Name; Undeclared[i] = Name } } *)
+Fixpoint class_merge_loop (st : state) (c nv : nat) (i : nat) (l : list nat) : res state :=
+  match l with
+  | [] => Ok st
+  | v :: t =>
+      let x := vget st v in
+      if (0 <? vuses x) && (vdecl x =? NoDecl) && (vname x =? vname (vget st nv)) then
+        let st1 := merge_into st v nv in
+        sc1 <~ sget st1 c ;;
+        class_merge_loop (sset st1 c (set_undeclared sc1 (list_set (sundeclared sc1) i nv))) c nv (S i) t
+      else class_merge_loop st c nv (S i) t
+  end.
+
+Definition class_merge (st : state) (c nv : nat) : res state :=
+  sc <~ sget st c ;;
+  class_merge_loop st c nv O (sundeclared sc).
+
 (* ---- the parser's use of the scope tables (parse.go) -------------------------------------- *)
 Record pstate := mkP {
   pst : state ;
@@ -375,7 +410,11 @@ Inductive event :=
 | EArrowIdent                      (* parseIdentifierArrowFunc's edit for the Var of the preceding Use,
                                       the scope of the arrow function being entered already *)
 | EExitUndeclare                   (* parse.go:2303-2304: exitScope(parent); scope.UndeclareScope() *)
-| EClassExprName (name : Z).       (* parse.go:1031: &Var{name, nil, 1, ExprDecl} *)
+| EClassExprName (name : Z)        (* parse.go parseAnyClass: &Var{name, nil, 1, ExprDecl} *)
+| EMarkCatch                       (* parse.go try statement: NumArgUses = len(Undeclared) after the catch parameter *)
+| EClassExprMerge (k : nat).       (* parse.go parseAnyClass, end of a class expression with a name: the pending uses of
+                                      the name in the class Scope are merged into the name's Var; that Var is the
+                                      one stored k occurrences ago (k = the occurrences of the class body) *)
 
 Inductive outcome :=
 | Running (p : pstate)
@@ -479,6 +518,16 @@ Definition pstep (p : pstate) (e : event) : outcome :=
   | EClassExprName name =>
       let '(st1, v) := valloc (pst p) (mkVar name None 1 ExprDecl) in
       Running (mkP st1 (pcur p) (v :: plog p))
+  | EMarkCatch =>
+      match pcur p with
+      | None => Crashed
+      | Some c => of_res (st1 <~ mark_catch (pst p) c ;; Ok (mkP st1 (pcur p) (plog p)))
+      end
+  | EClassExprMerge k =>
+      match pcur p, nth_error (plog p) k with
+      | Some c, Some nv => of_res (st1 <~ class_merge (pst p) c nv ;; Ok (mkP st1 (pcur p) (plog p)))
+      | _, _ => Crashed
+      end
   end.
 
 Fixpoint prun (p : pstate) (evs : list event) : outcome :=
